@@ -31,7 +31,7 @@ from .c12 import flat_vector
 
 PROP = 'C04'
 from . import lemmas as _lemmas
-LEMMAS = [_lemmas.PROTOCOL]
+LEMMAS = [_lemmas.PROTOCOL, _lemmas.PERIODIC]
 RULES = {'S1': 'cached boundary system and terms untouched', 'S2': 'solver system == boundary system + each term once', 'S3': 'one solver call, same system for both solvers',
          'S4': 'result reshaped (C order), stored in place, ghosts re-imposed, same object returned', 'S5': 'solveMatrixPDE', 'S6': 'term rows are interior rows only', 'S9': 'source terms contribute exactly beta_P / gamma_P',
          'S7': 'explicit-solver result usable by solvePDE', 'S8': 'boundary data edited after construction are the ones solved with (every face)'}
